@@ -13,6 +13,7 @@ import (
 	"github.com/influxdata/kapacitor/edge"
 	"github.com/influxdata/kapacitor/keyvalue"
 	"github.com/influxdata/kapacitor/models"
+	alertservice "github.com/influxdata/kapacitor/services/alert"
 
 	"kapverif/rt"
 )
@@ -148,8 +149,9 @@ func (t *talkService) set(h *inlineHandler) {
 
 // Exec runs chunks of sequences through real tasks on one assembled TaskMaster.
 type Exec struct {
-	env  *rt.Env
-	talk *talkService
+	env   *rt.Env
+	store *rt.BoltStore
+	talk  *talkService
 	n    int
 	// measured totals
 	Points, Events, Forwarded, Tasks, NodeErrors, InlineEvents int
@@ -179,6 +181,27 @@ func (c *chunkErrs) add(class string) {
 
 func NewExec() (*Exec, error) { return NewExecBuf(topicBuf) }
 
+// NewExecPersist: the alert service persists its topics (Bolt file in memory, no fsync),
+// so a restore after a task restart decodes the stored event states.
+func NewExecPersist() (*Exec, error) {
+	var store *rt.BoltStore
+	env, err := rt.NewEnv(rt.EnvOpts{TopicBufLen: topicBuf, PersistTopics: true,
+		StorageWrap: func(inner alertservice.StorageService) alertservice.StorageService {
+			st, err := rt.NewBoltStore("", true, inner.Diagnostic())
+			if err != nil {
+				rt.Fatalf("c01: bolt store: %v", err)
+			}
+			store = st
+			return st
+		}})
+	if err != nil {
+		return nil, err
+	}
+	x := &Exec{env: env, talk: &talkService{}, store: store}
+	env.TM.TalkService = x.talk
+	return x, nil
+}
+
 // NewExecBuf: bufLen is the per-handler event queue of the alert service.
 func NewExecBuf(bufLen int) (*Exec, error) {
 	env, err := rt.NewEnv(rt.EnvOpts{TopicBufLen: bufLen})
@@ -190,13 +213,33 @@ func NewExecBuf(bufLen int) (*Exec, error) {
 	return x, nil
 }
 
-func (x *Exec) Close() { x.env.Close() }
+func (x *Exec) Close() {
+	x.env.Close()
+	if x.store != nil {
+		x.store.Close()
+	}
+}
 
 func fieldsOf(p Pt, b, n int) map[string]interface{} {
-	return map[string]interface{}{
+	f := map[string]interface{}{
 		"i": p.C[0], "w": p.C[1], "c": p.C[2], "ri": p.R[0], "rw": p.R[1], "rc": p.R[2],
 		"b": int64(b), "n": int64(n), "value": float64(p.V),
 	}
+	// a lambda that must fail on this point: its field is missing (even steps) or a
+	// string where a boolean is expected (odd steps)
+	for l := 0; l < 3; l++ {
+		for _, e := range []struct {
+			on   bool
+			name string
+		}{{p.CE[l], lvlField[l]}, {p.RE[l], rstField[l]}} {
+			if e.on && (b+n)%2 == 0 {
+				delete(f, e.name)
+			} else if e.on {
+				f[e.name] = "x"
+			}
+		}
+	}
+	return f
 }
 
 // Times of a sequence: per step the model time of every point and tmax.
@@ -290,8 +333,12 @@ func (x *Exec) Run(cfg Cfg, seqs []Seq, ids []string, o runOpts) ([][]stepObs, c
 	written := 0
 	start := func() {
 		x.Tasks++
-		taskID = fmt.Sprintf("c01task%d_%d", x.n, len(taskIDs))
-		taskIDs = append(taskIDs, taskID)
+		// a restarted task keeps its ID (as a stop/start through the API does): the name of
+		// the inline handlers' anonymous topic derives from it
+		taskID = fmt.Sprintf("c01task%d", x.n)
+		if len(taskIDs) == 0 {
+			taskIDs = append(taskIDs, taskID)
+		}
 		if _, err := x.env.StartTask(taskID, cfg.Script(topic), tt, rt.DefaultDBRP); err != nil {
 			rt.Fatalf("c01: start task for %v: %v\n%s", cfg, err, cfg.Script(topic))
 		}
@@ -339,8 +386,15 @@ func (x *Exec) Run(cfg Cfg, seqs []Seq, ids []string, o runOpts) ([][]stepObs, c
 			}
 			st := s[b]
 			tags := map[string]string{"g": ids[i]}
+			meas := "m"
+			if cfg.Multi && len(st.Pts) > 0 {
+				meas = measOf(st.Pts[0].Sub)
+				if !cfg.Batch {
+					tags["h"] = hOf(st.Pts[0].Sub)
+				}
+			}
 			if cfg.Batch {
-				begin := edge.NewBeginBatchMessage("m", models.Tags{"g": ids[i]}, false, tmap.T(tmaxs[i][b]), len(st.Pts))
+				begin := edge.NewBeginBatchMessage(meas, models.Tags{"g": ids[i]}, false, tmap.T(tmaxs[i][b]), len(st.Pts))
 				bps := make([]edge.BatchPointMessage, len(st.Pts))
 				for n, p := range st.Pts {
 					bps[n] = edge.NewBatchPointMessage(models.Fields(fieldsOf(p, b, n)), models.Tags{"g": ids[i]}, tmap.T(times[i][b][n]))
@@ -350,7 +404,7 @@ func (x *Exec) Run(cfg Cfg, seqs []Seq, ids []string, o runOpts) ([][]stepObs, c
 				}
 				x.Points += len(st.Pts)
 			} else {
-				wr = append(wr, rt.MustPoint("m", tags, fieldsOf(st.Pts[0], b, 0), tmap.T(times[i][b][0])))
+				wr = append(wr, rt.MustPoint(meas, tags, fieldsOf(st.Pts[0], b, 0), tmap.T(times[i][b][0])))
 				x.Points++
 			}
 		}
@@ -521,7 +575,17 @@ func emit(t *rt.Trace, cfg Cfg, id string, s Seq, obs []stepObs, rep chunkErrs, 
 		}
 		pts := make([]any, len(st.Pts))
 		for n, p := range st.Pts {
-			pts[n] = rt.M{"c": bools(p.C), "r": bools(p.R), "t": times[b][n]}
+			pm := rt.M{"c": bools(p.C), "r": bools(p.R), "t": times[b][n]}
+			if cfg.Errs {
+				pm["ce"], pm["re"] = bools(p.CE), bools(p.RE)
+			}
+			pts[n] = pm
+		}
+		// the ID the node has to render for THIS step's data (several per group with Multi)
+		sid, sub := id, 0
+		if len(st.Pts) > 0 {
+			sub = st.Pts[0].Sub
+			sid = idOf(cfg, id, sub)
 		}
 		o := obs[b]
 		evs, eids := []any{}, []any{}
@@ -535,7 +599,10 @@ func emit(t *rt.Trace, cfg Cfg, id string, s Seq, obs []stepObs, rep chunkErrs, 
 			fids = append(fids, f.ID)
 			ftids = append(ftids, f.TagID)
 		}
-		ln := rt.M{"id": id, "pts": pts, "tmax": tmaxs[b], "o": evs, "oid": eids, "nf": o.NFwd, "f": fw, "fid": fids, "ftid": ftids}
+		ln := rt.M{"id": sid, "pts": pts, "tmax": tmaxs[b], "o": evs, "oid": eids, "nf": o.NFwd, "f": fw, "fid": fids, "ftid": ftids}
+		if cfg.Multi {
+			ln["sub"] = sub
+		}
 		if cfg.Inline {
 			ln["an"] = o.Anon
 		}
